@@ -138,6 +138,23 @@ def mk_doc(case):
     return doc
 
 
+def norm_random_ids(text):
+    """2.1 observables without id-contributing properties get a fresh random UUIDv4 on every parse: mask those (only inside containers,
+    where the input carried no id)."""
+    import re
+    j = json.loads(text)
+
+    def walk(x, in_container):
+        if isinstance(x, dict):
+            if in_container and isinstance(x.get("id"), str) and re.search(r"--[0-9a-f]{8}-[0-9a-f]{4}-4[0-9a-f]{3}-", x["id"]):
+                x = dict(x, id="<random-uuid4>")
+            return {k: walk(v, k == "objects" or (in_container and k != "extensions" and False)) if k != "objects" else {kk: walk(vv, True) for kk, vv in v.items()} if isinstance(v, dict) else walk(v, False) for k, v in x.items()}
+        if isinstance(x, list):
+            return [walk(v, False) for v in x]
+        return x
+    return json.dumps(walk(j, False), sort_keys=True)
+
+
 def check_case(case):
     doc = mk_doc(case)
     v = case["version"]
@@ -181,7 +198,7 @@ def check_case(case):
     if type(got) is not type(ref):
         fails.append(("class-differs:%s" % entry.split("-")[0], "%s gives %s.%s, direct parse(version=%r) gives %s.%s: %s" % (
             entry, type(got).__module__, type(got).__name__, v, type(ref).__module__, type(ref).__name__, desc)))
-    elif got.serialize() != ref.serialize():
+    elif norm_random_ids(got.serialize()) != norm_random_ids(ref.serialize()):
         fails.append(("serialization-differs:%s" % entry.split("-")[0], "%s vs direct: %s / %s" % (entry, core.short(got.serialize(), 200), core.short(ref.serialize(), 200))))
     if v is not None and vmod(got) != v:
         fails.append(("version-not-honoured:%s" % entry.split("-")[0], "%s(version=%r) produced a %s object: %s" % (entry, v, vmod(got), desc)))
